@@ -164,18 +164,12 @@ func (c *CopyCommand) copyOneFile(srcRelPath, destRelPath string, tow io.Writer)
 			"retry reading input files before copying")
 	}
 
-	var srcPlDif, destPlDif PointsList
-	if c.CopyNaN {
-		srcPlDif, destPlDif = srcTsList.Diff(destTsList)
-	} else {
-		srcPlDif, destPlDif = srcTsList.DiffExcludeSrcNaN(destTsList)
-	}
-	if srcPlDif.AllEmpty() && destPlDif.AllEmpty() {
-		return nil
-	}
-
-	if err := updateFileDataWithPointsList(destDB, srcPlDif, now); err != nil {
+	srcPlDif, err := updateFileDataWithDiff(destDB, srcTsList, c.ArchiveID, c.From, until, now, c.CopyNaN)
+	if err != nil {
 		return err
+	}
+	if srcPlDif.AllEmpty() {
+		return nil
 	}
 
 	if err := printFileData(tow, srcHeader, srcPlDif, true); err != nil {
